@@ -254,7 +254,8 @@ class GridPoints:
 
         if self._is_shift is None:
             self._is_mesh_symmetry = False
-            self._is_shift = self._shift2boolean(None)
+            self._is_time_reversal = False
+            self._is_shift = self._shift2boolean(None, is_gamma_center=is_gamma_center)
             self._set_grid_points()
             self._ir_qpoints += q_mesh_shift / self._mesh
             self._fit_qpoints_in_BZ()
